@@ -288,6 +288,44 @@ def run(res, tier):
                 f"linear probing disagrees (writer wraps:{wprobe} stops at -1:{wstop} map initialised to -1:{init_m1}; reader stops on "
                 f"negative:{rstop} wraps at count:{rwrap})")
 
+    # the probe accepts a slot only when the stored name EQUALS the query, terminator included: the returned slot is guarded by
+    # strcmp/strncmp(..) == 0 against m->names + adr[slot], or by a memcmp over strlen(query) + 1 bytes
+    res.rule("R-MATCH", "a name-table hit is a full string comparison (terminating NUL included)", floor=1)
+    sdefs = _lf.single_defs(rd)
+    hits = [r_ for r_ in cir.walk(rbody) if r_.get("k") == "ReturnStmt" and cir.kids(r_) and cir.text(cir.kids(r_)[0]) in slot_vars]
+    if not hits:
+        raise AnalysisError("mj_name2id: no return of a slot value found")
+    qname = [p_.get("n") for p_ in cir.params(rd) if "char" in (p_.get("t") or "")]
+    for r_ in hits:
+        okm, why = False, "no string comparison guards the hit"
+        for c_, pol in norm.guards(rbody, r_) or ():
+            call = cir.strip(c_)
+            if not cir.is_call(call) or pol:
+                continue
+            nm = cir.callee(call)
+            at = [cir.text(a_) for a_ in cir.args(call)]
+            if nm in ("strcmp", "strncmp", "memcmp") and any(t in qname for t in at[:2]) and any("names" in t and "adr[" in t for t in at[:2]):
+                if nm == "strcmp":
+                    okm = True
+                elif nm == "strncmp":
+                    okm = True      # stops at the first NUL of either string: equality needs both to end together
+                    if len(at) > 2 and ("strlen" in _lf.fmt(_lf.linform(cir.args(call)[2], sdefs)) and
+                                        _lf.linform(cir.args(call)[2], sdefs).get("1", 0) < 1):
+                        okm, why = False, f"strncmp over `{at[2]}` bytes does not include the terminator: a stored name that merely starts with the query matches"
+                else:
+                    f_ = _lf.linform(cir.args(call)[2], sdefs)
+                    lens = {x.get("n") for x in cir.walk(rd) if x.get("k") == "VarDecl" and x.get("init") and
+                            cir.text([c2 for c2 in cir.kids(x) if c2][-1]).startswith("strlen(")}
+                    strl = [a_ for a_ in f_ if a_.startswith("strlen(") or a_ in lens]
+                    okm = len(strl) == 1 and f_.get(strl[0]) == 1 and f_.get("1", 0) >= 1
+                    if not okm:
+                        why = (f"memcmp over `{_lf.fmt(f_)}` bytes does not include the terminating NUL: a stored name that merely "
+                               f"starts with the query matches (wrong id, or an id for a name that does not exist)")
+        if okm:
+            res.ok("R-MATCH", "mj_name2id:hit", {"line": r_.get("line")})
+        else:
+            res.bad("R-MATCH", "mj_name2id:hit", NAME, r_.get("line"), why)
+
     # N5 bounds
     res.rule("R-BOUNDS", "lookups index only inside their tables", floor=2)
     idf = norm.canon(un, "mj_id2name", exclude=(GETNUM,))
